@@ -777,7 +777,7 @@ pub async fn decline_scenario(variant: u8, salt: u64) -> anyhow::Result<Vec<(&'s
         if let Some(o) = found {
             break Some(o);
         }
-        if start.elapsed() > Duration::from_secs(20) {
+        if start.elapsed() > Duration::from_secs(90) {
             break None;
         }
         tokio::time::sleep(Duration::from_millis(10)).await;
@@ -786,7 +786,7 @@ pub async fn decline_scenario(variant: u8, salt: u64) -> anyhow::Result<Vec<(&'s
     match &outcome {
         Some(Ok(d)) => bad.push(("request_for_a_document_not_being_synced_is_declined", format!("variant {variant}: node B does not sync the document, yet node A's request ended as a successful session ({} sent, {} received)", d.entries_sent, d.entries_received))),
         Some(Err(_)) => {}
-        None => bad.push(("dial_ends", format!("variant {variant}: node A's dial to a node that does not sync the document was not reported as finished within 20 s"))),
+        None => bad.push(("dial_ends", format!("variant {variant}: node A's dial to a node that does not sync the document was not reported as finished within 90 s"))),
     }
     // give B's bookkeeping of the declined request a moment, then look at its store
     tokio::time::sleep(Duration::from_millis(150)).await;
